@@ -123,6 +123,9 @@ func ruleNoNominalDurationArithmetic(c *Ctx) {
 						okUse = true
 					}
 				}
+				if nm := CalleeName(info, x); strings.HasPrefix(nm, "fmt.") || strings.HasPrefix(nm, "utils/log.") || strings.HasPrefix(nm, "go.uber.org/zap.") {
+					okUse = true // printed, not computed with
+				}
 				if !okUse {
 					why = "it is handed to " + types.ExprString(x.Fun) + "(…)"
 				}
